@@ -24,6 +24,9 @@ CHECKS = {
  "C06": dict(tech="partial reference detector + instrumented ReadSeeker (offset monitor) over writer outputs x indentations x re-encodings and a negative/near-miss corpus",
    text="Writer outputs for SPDX 2.3 and CycloneDX 1.3/1.4/1.5 at six indentations and under eight JSON re-encodings must be detected as exactly that format, with agreeing Type/Version/Encoding accessors, the stream back at offset 0 (an instrumented ReadSeeker records every Read/Seek) and ParseStream equal to ParseStreamWithOptions(F); a corpus of negative and near-miss declarations (nested, in arrays, in strings, unsupported versions, tag-value files quoting a supported version elsewhere, no marker) must be rejected; soups and mutated declarations are executed for totality and rewind.",
    note="The reference detector is deliberately partial and decides only clear cases; everything else is executed for totality and rewind only.", ref="DESIGN.md §5 C06"),
+ "C07": dict(tech="crash/exit/hang monitors in supervised children + determinism oracle over interleaved serialization schedules",
+   text="Reflection-populated and programmatically built Document values (nil metadata/node list, nil maps, unknown enum numbers, every subset of DocumentType's optional fields, empty/duplicate/generated ids, dangling edges, cyclic containment, 0..many roots, invalid UTF-8; half of them through proto.Marshal/Unmarshal) are serialized in all 8 registered formats (incl. the SPDX 3 beta serializer) inside supervised children in the schedule d0,d1,d0,d2,d3,d0; panics are recovered and reported with the panicking function, process deaths are attributed by the parent, a CPU/heap watchdog decides hangs, and the three outputs of d0 must agree after removing creation timestamps and sorting all arrays.",
+   note="nil elements inside repeated message fields are outside the class. Array order is ignored entirely when comparing outputs (coarser than the statement requires, hence never a false alarm).", ref="DESIGN.md §5 C07"),
  "C08": dict(tech="invariant monitor (well-formed / normalised) after every step of exhaustive small-universe and random operation programs",
    text="Runtime invariant monitoring: every result of every editing operation is checked for well-formedness (and normalisation where the statement requires it), RemoveNodes against its exact set model. All 4301 well-formed lists on <=3 ids are enumerated as receivers (thorough: against all 4301 arguments), plus random operation histories whose results re-enter the pool. Decides the property for the executions produced; exhaustive only on the enumerated universe.",
    note="Trusts the harness's own WF/normalised predicates and protobuf reflection (proto.Clone). Operands are well-formed by construction and re-checked before each step.", ref="DESIGN.md §5 C08"),
